@@ -329,14 +329,12 @@ Qed.
 End Transpose.
 
 (* ---------------------------------------------------------------- split_radix_fft (faithful transpositions) = fft_in_place *)
-Theorem split_radix_is_fft {F : Type} (O : FOps F) (L : FLaws O) tw K s w (x : list F) :
-  s <= 1 ->
-  length x = 2 ^ (S K + S K + s) -> length tw = 2 ^ (S K + K + s) ->
-  tw_ok O tw (S K + S K + s) w -> root_cond O (S K + S K + s) w ->
-  split_radix_fft O x tw = Some (fft_in_place_top O x tw).
+(* law-free: the faithful swap-loop version returns whatever the version with transposition by specification returns *)
+Lemma split_radix_tr_agree {F : Type} (O : FOps F) K s (x tw y : list F) :
+  s <= 1 -> length x = 2 ^ (S K + S K + s) ->
+  split_radix_fft_spec_tr O x tw = Some y -> split_radix_fft O x tw = Some y.
 Proof.
-  intros Hs Hl Hlt Ht Hw.
-  pose proof (VProofs.FFTSplit.split_radix_spec_tr_is_fft O L tw K s w x Hs Hl Hlt Ht Hw) as H.
+  intros Hs Hl H.
   unfold split_radix_fft, split_radix_fft_spec_tr, split_radix_fft_with in *. cbv zeta in *.
   assert (Elog : Nat.log2 (length x) / 2 = S K).
   { rewrite Hl, log2_pow2. symmetry. apply Nat.div_unique with s; lia. }
@@ -355,6 +353,16 @@ Proof.
   destruct (Nat.eqb_spec (length v2) (2 ^ S K * 2 ^ S K * 2 ^ s)) as [E2 | E2]; cbn [negb] in H; [|discriminate].
   rewrite (transpose_square_stretch_spec O v2 (2 ^ S K) (2 ^ s) E2 Hshape).
   exact H.
+Qed.
+
+Theorem split_radix_is_fft {F : Type} (O : FOps F) (L : FLaws O) tw K s w (x : list F) :
+  s <= 1 ->
+  length x = 2 ^ (S K + S K + s) -> length tw = 2 ^ (S K + K + s) ->
+  tw_ok O tw (S K + S K + s) w -> root_cond O (S K + S K + s) w ->
+  split_radix_fft O x tw = Some (fft_in_place_top O x tw).
+Proof.
+  intros Hs Hl Hlt Ht Hw. apply (split_radix_tr_agree O K s x tw _ Hs Hl).
+  exact (VProofs.FFTSplit.split_radix_spec_tr_is_fft O L tw K s w x Hs Hl Hlt Ht Hw).
 Qed.
 
 (* concurrent::evaluate_poly (split_radix_fft, then permute) = [p(w^i)] in natural order *)
